@@ -8,7 +8,7 @@ Require Import NV.C21.Model.
 (* ------------------------------------------------------------------------------------------ *)
 
 Lemma frame_isolate : forall s, frame (sseq s) (rng s) (isolate s) = s.
-Proof. intros [h p ss rr sv dl]; reflexivity. Qed.
+Proof. intros [h p ss rr sv dl ch cp]; reflexivity. Qed.
 
 Lemma frame_empty : forall B RB s, sseq s = [] -> rng s = [] -> frame B RB s = set_stacks s B RB.
 Proof. intros B RB s H1 H2; unfold frame; rewrite H1, H2; reflexivity. Qed.
@@ -74,17 +74,18 @@ Qed.
 (* The frame lemma: an execution that does not touch the stacks non-locally is oblivious to
    whatever lies below: it runs identically (same heap, variables, draws, outcome, same upper
    stack part) and leaves the lower part alone. *)
-Lemma frame_exec : forall p s B RB s' o,
+Lemma frame_exec : forall p, noobj p = true -> forall s B RB s' o,
   exec p s = (s', o, false) -> exec p (frame B RB s) = (frame B RB s', o, false).
 Proof.
-  induction p; intros s B RB s' o H; cbn [exec] in *.
+  induction p; intros Hno s B RB s' o H; cbn [noobj] in Hno; try discriminate;
+    try (apply andb_true_iff in Hno as [Hno1 Hno2]); cbn [exec] in *.
   - injection H as <- <-. reflexivity.
   - destruct (exec p1 s) as [[s1 o1] t1] eqn:H1.
     destruct o1 as [e|].
-    + injection H as <- <- ->. rewrite (IHp1 _ B RB _ _ H1). reflexivity.
+    + injection H as <- <- ->. rewrite (IHp1 Hno1 _ B RB _ _ H1). reflexivity.
     + destruct (exec p2 s1) as [[s2 o2] t2] eqn:H2.
       injection H as <- <- Ht. apply orb_false_iff in Ht as [-> ->].
-      rewrite (IHp1 _ B RB _ _ H1), (IHp2 _ B RB _ _ H2). reflexivity.
+      rewrite (IHp1 Hno1 _ B RB _ _ H1), (IHp2 Hno2 _ B RB _ _ H2). reflexivity.
   - apply draw_frame; assumption.
   - unfold frame at 1; cbn [sseq set_stacks].
     destruct (sseq s) as [|id ss]; [discriminate|]. cbn [app].
@@ -102,16 +103,14 @@ Proof.
   - rewrite resolve_frame. destruct (resolve i s) as [[s1 id]|].
     + destruct (exec p (do_push id s1)) as [[s3 o3] t3] eqn:Hb.
       apply (ctx_exit_frame B RB) in H as [-> H].
-      rewrite push_frame, (IHp _ B RB _ _ Hb).
+      rewrite push_frame, (IHp Hno _ B RB _ _ Hb).
       assert (Hl : length (sseq (frame B RB s1)) = length (sseq s1) + length B)
         by (unfold frame; cbn; apply app_length).
       rewrite Hl. exact H.
     + injection H as <- <-. reflexivity.
   - injection H as <- <-. reflexivity.
   - destruct (exec p s) as [[s1 o1] t1] eqn:H1.
-    injection H as <- <- ->. rewrite (IHp _ B RB _ _ H1). reflexivity.
-  - discriminate.
-  - discriminate.
+    injection H as <- <- ->. rewrite (IHp Hno _ B RB _ _ H1). reflexivity.
 Qed.
 
 (* ------------------------------------------------------------------------------------------ *)
